@@ -761,6 +761,54 @@ theorem fault_restores_any_class (e : IOErr) (fs : FS) (s : Sched) (hj : fs.jour
 example : (writeRecordE .eacces ⟨some [1, 2, 3], none⟩ { awrites := [([4, 5], .fail 1)] }).fs
     = ⟨some [1, 2, 3], none⟩ := by decide
 
+
+/-! ## The restored state is the state at every LATER time
+
+`write_record` keeps no file object of the archive open when it ends, whichever way it ends: the handle
+opened for append is closed (its `close` primitive issued -- the `with` block) before the roll-back opens
+the archive again and before the journal is removed.  So nothing is left that could write later, and what
+the theorems say about the state "after `write_record`" holds at every later observation point as long as
+no further operation is started.  (The correspondence observes exactly that: the files are read after the
+exception object has been dropped and the collector has run.) -/
+
+/-- the `with open_func(archive, 'ab')` block always issues the close of the handle it opened, unless the
+process is killed inside it: on the success path and on every failure path -/
+theorem append_handle_closed (fs : FS) (s : Sched) (hopen : s.aopen = .ok)
+    (hd : (appendPhase fs s).st ≠ some .died) :
+    ∃ t, (Prim.aclose, t) ∈ (appendPhase fs s).tr := by
+  unfold appendPhase at hd ⊢
+  simp only [hopen] at hd ⊢
+  split
+  · rename_i h; simp [h] at hd
+  · unfold closeStep
+    split
+    · exact ⟨.ok, by simp⟩
+    · rename_i k _; exact ⟨.fail k, by simp⟩
+    · rename_i k _; exact ⟨.die k, by simp⟩
+
+/-- time passing with no operation -/
+def idle (fs : FS) : Nat → FS
+  | 0 => fs
+  | t + 1 => idle fs t
+
+theorem idle_eq (fs : FS) (t : Nat) : idle fs t = fs := by
+  induction t with
+  | zero => rfl
+  | succ t ih => simpa [idle] using ih
+
+/-- **fault_restores, observed late**: at every later time `t` (no further operation), after errors of any
+class `e`: the archive holds the bytes it held before the attempt and there is no journal. -/
+theorem fault_restores_at_every_later_time (e : IOErr) (fs : FS) (s : Sched) (t : Nat) (hj : fs.journal = none)
+    (hraised : (writeRecordE e fs s).status = .raised)
+    (ho : s.ropen.isFail = false) (ht : s.rtrunc.isFail = false)
+    (hu : s.unlink.isFail = false) (hju : s.junlink.isFail = false) :
+    (idle (writeRecordE e fs s).fs t).bytes = fs.bytes ∧ (idle (writeRecordE e fs s).fs t).journal = none := by
+  rw [idle_eq]
+  exact fault_restores_any_class e fs s hj hraised ho ht hu hju
+
+example : ∃ t, (Prim.aclose, t) ∈ (appendPhase ⟨some [1], some []⟩ { awrites := [([2, 3], .fail 1)] }).tr :=
+  ⟨.ok, by decide⟩
+
 /-! ## A whole recorder life over a directory (constructor, roll-over, `close()` with the `-meta` archive)
 
 Every append is `write_record` aimed at ONE archive of the directory and at the journal next to it:
